@@ -1,6 +1,7 @@
 """C11 - thread and process modes change scheduling, not guarantees."""
 import numpy as np
 from .common import *          # noqa
+from .C10 import ob_generate_workers
 
 META = {
     "explanation": "Pool model: submit() evaluates in-process, as_completed() yields the futures in a solver-chosen "
@@ -12,7 +13,7 @@ META = {
                    "model for process mode: every worker starts from a copy of the parent's stream position at fork, "
                    "tasks are assigned to workers by the solver; with pairwise distinct stream elements the initial "
                    "positions must be pairwise distinct. Replays of (5) run on the real ProcessPoolExecutor.",
-    "bounds": {"quick": "<=3 pooled tasks (all 6 completion orders), workers 1..2 in the fork model",
+    "bounds": {"quick": "<=3 pooled tasks (all 6 completion orders), workers 1..2 in the fork model; any_worker_count: agents 1..8 x workers 1..5",
                "thorough": "<=4 pooled tasks, workers 1..3"},
     "outside": "real OS scheduling, pickling failures, worker crashes; the fork assumption (Linux start method); extra "
                "random fields of agent subclasses drawn inside workers",
@@ -175,6 +176,8 @@ def obligations(tier):
                 obs.append(Ob(f"greedy[k={k},{mode}]", ob_greedy(k, mode), 900))
     for mode in ("thread", "process"):
         obs.append(Ob(f"optimize[{mode},n=2]", ob_optimize(mode, 2), 900))
+        # "for any worker count": number of agents and worker count are solver variables (no evaluation lost)
+        obs.append(Ob(f"any_worker_count[{mode}]", ob_generate_workers(mode, 12 if th else 8, 6 if th else 5), 900))
     for n in (2, 3):
         obs.append(Ob(f"fork_rng[n={n},thread]", ob_fork_rng(n, 2, "thread"), 120))
         for w in (1, 2) + ((3,) if th else ()):
